@@ -5,8 +5,12 @@
 
 use crate::{TxId, scheduler::PublishedCursorReader};
 use ahash::AHashSet as HashSet;
+#[cfg(not(grevm_verif))]
 use parking_lot::Mutex;
+#[cfg(not(grevm_verif))]
 use std::sync::atomic::{AtomicUsize, Ordering};
+#[cfg(grevm_verif)]
+use crate::verif::sync::{Mutex, atomic::{AtomicUsize, Ordering}};
 
 struct DependentState {
     onboard: bool,
